@@ -19,53 +19,59 @@ pub fn frem32(a: f32, b: f32) -> f32 {
     a % b
 }
 
-/// The facts about `r = fmod(a, b)` that proofs may use, for finite `a >= 0`, finite `b > 0`.
-pub fn frem_axioms(a: f32, b: f32, r: f32) -> bool {
-    r >= 0.0 && r < b && r <= a && (!(a < b) || r == a) && (!(a == b) || r == 0.0)
-}
+#[cfg(kani)]
+pub use kani_model::*;
 
-pub static mut FREM_R: f32 = 0.0;
-pub static mut FREM_A: f32 = 0.0;
-pub static mut FREM_B: f32 = 0.0;
-pub static mut FREM_EXPECT: bool = false;
-
-/// Draw the remainder the next call will return. Every harness that can reach `frem32` calls
-/// this first.
-pub fn frem_havoc() {
-    unsafe {
-        FREM_R = kani::any();
-        FREM_EXPECT = false;
+#[cfg(kani)]
+mod kani_model {
+    /// The facts about `r = fmod(a, b)` that proofs may use, for finite `a >= 0`, finite `b > 0`.
+    pub fn frem_axioms(a: f32, b: f32, r: f32) -> bool {
+        r >= 0.0 && r < b && r <= a && (!(a < b) || r == a) && (!(a == b) || r == 0.0)
     }
-}
 
-/// Ghost expectation: if the remainder is taken at all it must be taken of exactly `(a, b)`;
-/// the model asserts this (obligation "A1 ghost: remainder operands").
-pub fn frem_expect(a: f32, b: f32) {
-    unsafe {
-        FREM_A = a;
-        FREM_B = b;
-        FREM_EXPECT = true;
-    }
-}
+    pub static mut FREM_R: f32 = 0.0;
+    pub static mut FREM_A: f32 = 0.0;
+    pub static mut FREM_B: f32 = 0.0;
+    pub static mut FREM_EXPECT: bool = false;
 
-pub fn frem_current() -> f32 {
-    unsafe { FREM_R }
-}
-
-pub fn frem32_model(a: f32, b: f32) -> f32 {
-    unsafe {
-        if FREM_EXPECT {
-            kani::assert(
-                a == FREM_A && b == FREM_B,
-                "A1 ghost: the remainder is taken of (time since the delay, cycle duration)",
-            );
+    /// Draw the remainder the next call will return. Every harness that can reach `frem32` calls
+    /// this first.
+    pub fn frem_havoc() {
+        unsafe {
+            FREM_R = kani::any();
+            FREM_EXPECT = false;
         }
-        if a.is_finite() && a >= 0.0 && b.is_finite() && b > 0.0 {
-            kani::assume(frem_axioms(a, b, FREM_R));
-            FREM_R
-        } else {
-            // outside the domain of the axioms nothing is known about the result
-            kani::any()
+    }
+
+    /// Ghost expectation: if the remainder is taken at all it must be taken of exactly `(a, b)`;
+    /// the model asserts this (obligation "A1 ghost: remainder operands").
+    pub fn frem_expect(a: f32, b: f32) {
+        unsafe {
+            FREM_A = a;
+            FREM_B = b;
+            FREM_EXPECT = true;
+        }
+    }
+
+    pub fn frem_current() -> f32 {
+        unsafe { FREM_R }
+    }
+
+    pub fn frem32_model(a: f32, b: f32) -> f32 {
+        unsafe {
+            if FREM_EXPECT {
+                kani::assert(
+                    a == FREM_A && b == FREM_B,
+                    "A1 ghost: the remainder is taken of (time since the delay, cycle duration)",
+                );
+            }
+            if a.is_finite() && a >= 0.0 && b.is_finite() && b > 0.0 {
+                kani::assume(frem_axioms(a, b, FREM_R));
+                FREM_R
+            } else {
+                // outside the domain of the axioms nothing is known about the result
+                kani::any()
+            }
         }
     }
 }
